@@ -124,3 +124,87 @@ Definition trace (c : cfg) (n : nat) : outcome astate :=
   | Err e => Outcome [] (Some e)
   | Ok st => match trace_from c st 1 n with Outcome l f => Outcome (st :: l) f end
   end.
+
+(** ** Checkers evaluated by the correspondence (vm_compute) *)
+From Coq Require Import QArith Qabs.
+
+(** exact rational value of a finite float *)
+Definition F2Q (x : float) : option Q :=
+  match Prim2SF x with
+  | S754_zero _ => Some 0%Q
+  | S754_finite s m e =>
+      let q := if (0 <=? e)%Z then inject_Z (Z.pos m * 2 ^ e) else (Z.pos m # Z.to_pos (2 ^ (- e)))%Q in
+      Some (if s then Qopp q else q)
+  | _ => None
+  end.
+
+Fixpoint forall2b {A B} (f : A -> B -> bool) (l : list A) (m : list B) : bool :=
+  match l, m with
+  | [], [] => true
+  | a :: l', b :: m' => f a b && forall2b f l' m'
+  | _, _ => false
+  end.
+
+Definition err_eqb (a b : option err) : bool :=
+  match a, b with
+  | None, None => true
+  | Some InputError, Some InputError => true
+  | Some Crash, Some Crash => true
+  | _, _ => false
+  end.
+
+(** run-length decoding of an observed trace *)
+Fixpoint unrle {A} (l : list (A * nat)) : list A :=
+  match l with [] => [] | (a, n) :: r => repeat a n ++ unrle r end.
+
+Definition close_to (tol : Q) (q : Q) (x : float) : bool :=
+  match F2Q x with Some v => Qle_bool (Qabs (q - v)) tol | None => false end.
+
+(** observed: (temperature, inverse) after initialisation and after each iteration reached, run-length
+    encoded, and the class of the exception that stopped the run (if any) *)
+Definition obs_t : Type := (list ((float * float) * nat) * option err)%type.
+
+(** the binary64 twin reproduces the observation bit for bit *)
+Definition check_bits (c : fcfg) (n : nat) (o : obs_t) : bool :=
+  match f_trace c n with
+  | Outcome l f =>
+      err_eqb f (snd o) &&
+      forall2b (fun s x => fbits_eq (f_temp s) (fst x) && fbits_eq (f_temp_inv s) (snd x)) l (unrle (fst o))
+  end.
+
+(** the exact model agrees with the observation: same failure at the same iteration, values within [tol] *)
+Definition check_exact (tol : Q) (c : cfg) (n : nat) (o : obs_t) : bool :=
+  match trace c n with
+  | Outcome l f =>
+      err_eqb f (snd o) &&
+      forall2b (fun s x => close_to tol (temp s) (fst x) && close_to tol (temp_inv s) (snd x)) l (unrle (fst o))
+  end.
+
+Definition mk_cfg (on : bool) (na : Z) (t0 : float) (np : Z) : option cfg :=
+  match F2Q t0 with Some q => Some {| a_on := on; n_ann := na; T0 := q; n_plateau := np |} | None => None end.
+
+Definition check_case (x : (bool * Z * float * Z) * nat * obs_t) : bool :=
+  match x with
+  | ((on, na, t0, np), n, o) =>
+      check_bits {| f_on := on; f_n_ann := na; f_T0 := t0; f_n_plateau := np |} n o &&
+      match mk_cfg on na t0 np with Some c => check_exact (1 # 1000000000000) c n o | None => false end
+  end.
+
+Definition check_case_bits (x : (bool * Z * float * Z) * nat * obs_t) : bool :=
+  match x with ((on, na, t0, np), n, o) => check_bits {| f_on := on; f_n_ann := na; f_T0 := t0; f_n_plateau := np |} n o end.
+
+(** constructor: int(frac * n_iter) in binary64, and over Q up to the rounding of the product *)
+Definition check_n_ann (x : float * Z * Z) : bool :=
+  match x with
+  | (fr, n_iter, observed) =>
+      match f_resolve_n_ann None (Some fr) n_iter, F2Q fr with
+      | Ok z, Some q =>
+          (z =? observed)%Z &&
+          match resolve_n_ann None (Some q) n_iter with
+          | Ok zq => (zq =? observed)%Z ||
+                     ((zq + 1 =? observed)%Z && Qle_bool (inject_Z observed - q * inject_Z n_iter) (1 # 1000000000))
+          | Err _ => false
+          end
+      | _, _ => false
+      end
+  end.
